@@ -82,6 +82,8 @@ type Sched struct {
 	resOnce sync.Once
 	mutexN  int
 
+	noExplore bool
+
 	// Inline: run goroutines spawned with a tag in this set to completion at spawn
 	// (fork-join-inline policy for the pub fan-out in UI-level harnesses).
 	InlineTags map[string]bool
@@ -257,6 +259,10 @@ func (s *Sched) choose(from *G, tag string) *G {
 		return nil
 	}
 	choice := 0
+	if len(en) > 1 && s.noExplore {
+		// set-up phase: deterministic default schedule, no decision recorded
+		return en[0]
+	}
 	if len(en) > 1 {
 		if s.pos < len(s.prefix) {
 			choice = s.prefix[s.pos]
@@ -499,6 +505,15 @@ func touchObj(s *Sched, name string) map[int]int {
 		m[name] = o
 	}
 	return o
+}
+
+// SetExplore switches decision recording on or off: while off, every scheduling choice
+// takes the default (continue the running goroutine, else the lowest id) and is not part
+// of the schedule. Used for deterministic set-up phases of a scenario.
+func SetExplore(on bool) {
+	if s := S; s != nil {
+		s.noExplore = !on
+	}
 }
 
 // Current returns the name of the running controlled goroutine ("" in pass-through).
